@@ -4,7 +4,7 @@ from __future__ import annotations
 import ast
 from typing import Any, Dict, List, Optional, Tuple
 
-from .absint import (AV, BoolV, GroupV, IntParam, LevelV, NotImpl, NumV, OpaqueV, Outcome, QuantV, UnitV,
+from .absint import (ren_rat, AV, BoolV, GroupV, IntParam, LevelV, NotImpl, NumV, OpaqueV, Outcome, QuantV, UnitV,
                      Unsupported)
 from .algebra import describe, path_alternatives
 from .calls import Resolver
@@ -121,6 +121,7 @@ def check_operators(rep: Report, prog: Program, resolver: Resolver, rid_value: s
                 want, wdim, text = expected(kind, run, me, other, o)
                 if want is None:
                     raise AnalysisError(f"{qual}[{arm}]: no specification for this operand kind")
+                want = ren_rat(want, o.ren)
                 rep.check(rid_value, key, got.value() == want,
                           f"physical value of the result is {got.value()!r}; dimensional analysis requires {text} = {want!r}",
                           fi.where(o.node), note=repr(got.value()))
@@ -167,6 +168,7 @@ def check_comparisons(rep: Report, prog: Program, resolver: Resolver, rid: str) 
             n = 0
             for e in cmps:
                 a, b = e.data["left"], e.data["right"]
+                mv, ov = ren_rat(me.value(), e.ren), ren_rat(other.value(), e.ren)
                 key = f"{qual}:{ast.unparse(e.node)[:60]}"
                 if isinstance(a, NumV) and isinstance(b, NumV):
                     if a.ut is None and b.ut is None:
@@ -175,7 +177,7 @@ def check_comparisons(rep: Report, prog: Program, resolver: Resolver, rid: str) 
                     ua, ub = a.unit_type(), b.unit_type()
                     homog = ua.same(ub) or _guarded_same_unit(e)
                     va, vb = a.rat * ua.value(), b.rat * ub.value()
-                    phys = (va == me.value() and vb == other.value()) or (va == other.value() and vb == me.value())
+                    phys = (va == mv and vb == ov) or (va == ov and vb == mv)
                     rep.check(rid, key, homog and phys,
                               ("magnitudes in different units are compared" if not homog else
                                f"the compared magnitudes denote {va!r} and {vb!r}, not the operands' physical values "
@@ -183,8 +185,7 @@ def check_comparisons(rep: Report, prog: Program, resolver: Resolver, rid: str) 
                               fi.where(e.node))
                 elif isinstance(a, QuantV) and isinstance(b, QuantV):
                     n += 1
-                    phys = (a.value() == me.value() and b.value() == other.value()) or \
-                           (a.value() == other.value() and b.value() == me.value())
+                    phys = (a.value() == mv and b.value() == ov) or (a.value() == ov and b.value() == mv)
                     rep.check(rid, key, phys,
                               f"the recursive comparison is between {a.value()!r} and {b.value()!r}, not the operands' "
                               "physical values", fi.where(e.node))
